@@ -13,7 +13,7 @@ from .models import Models
 from .source import Source
 from .spec import Schema
 
-SIDE_MODULES = ["specfns", "vecspec", "autodiff_c", "compiler_c", "analysis_c", "expressions_c", "constraints_c"]
+SIDE_MODULES = ["specfns", "vecspec", "autodiff_c", "compiler_c", "analysis_c", "expressions_c", "constraints_c", "problem_c"]
 
 
 class Engine:
@@ -29,6 +29,7 @@ class Engine:
         self.reg.concretizers = {}
         self.reg.native_searches = {}
         self.reg.bounded_checks = {}
+        self.reg.unbox_hooks = {}
         for m in SIDE_MODULES:
             mod = importlib.import_module("contracts." + m)
             self.side[m] = mod
